@@ -386,11 +386,13 @@ def selftest_corrupt(ctx, module, path, label, mutate, cfg=None):
 # ---------------------------------------------------------------------------
 # generic algebraic conformance: drive vek -> ndjson -> Trace_<X>.tla
 
-def law_runs(ctx, module, cfgs, workers=4, timeout=1800, heap="4g"):
-    """Run Law_* / MC_* configurations of one module in parallel; all must pass."""
+def law_runs(ctx, module, cfgs, workers=4, timeout=1800, heap="4g", kind="law_on_spec"):
+    """Run Law_* / MC_* configurations of one module in parallel; all must pass.
+    RandomElement draws are seeded with the run's seed, so a run is reproducible."""
     from concurrent.futures import ThreadPoolExecutor
     with ThreadPoolExecutor(max_workers=min(6, len(cfgs))) as ex:
-        futs = [(c, ex.submit(tlc, module, c, None, None, workers, timeout, None, None, heap)) for c in cfgs]
+        futs = [(c, ex.submit(tlc, module, c, None, None, workers, timeout, None, None, heap, False, False,
+                              ["-seed", str(ctx.seed)])) for c in cfgs]
         for c, f in futs:
             r = f.result()
             if r.invariant_violated:
@@ -398,7 +400,7 @@ def law_runs(ctx, module, cfgs, workers=4, timeout=1800, heap="4g"):
                 raise ToolError("specification law %s violated in %s/%s: the specification itself is wrong" % (
                     r.invariant_violated, module, c))
             tlc_ok(r, "%s/%s" % (module, c))
-            ctx.add_tlc(r, c, "law_on_spec")
+            ctx.add_tlc(r, c, kind)
 
 
 def drive_validate(ctx, drive, module, cfg, label, n, expect_ops, key=None, extra_args=None,
